@@ -209,7 +209,32 @@ impl Gen<'_> {
 			_ => {}
 		}
 		match ty {
-			Ty::Num => match self.rng.below(9) {
+			Ty::Num => match self.rng.below(11) {
+				8 => {
+					self.note("bitwise");
+					let a = self.expr(Ty::Num, d);
+					if self.rng.chance(1, 2) {
+						let op = *self.rng.pick(&["&", "|", "^"]);
+						let b = self.expr(Ty::Num, d);
+						format!("({a} {op} {b})")
+					} else {
+						let op = *self.rng.pick(&["<<", ">>"]);
+						if self.rng.chance(1, 3) {
+							// the overflow guard of `<<` at its boundary: base = ±2^(63-k) and neighbours
+							let (b, k) = *self.rng.pick(&[("1", 62), ("2", 62), ("3", 62), ("(-2)", 62), ("(-3)", 62), ("4", 61),
+								("3", 61), ("(-4)", 61), ("(-5)", 61), ("0", 63), ("1", 63), ("(-1)", 63), ("(-2)", 63),
+								("7", 64), ("7", 127), ("8", 60), ("7", 60), ("(-8)", 60), ("(-9)", 60)]);
+							return format!("({b} {op} {k})");
+						}
+						let k = *self.rng.pick(&["0", "1", "2", "3", "5", "65", "(-1)", "62"]);
+						format!("({a} {op} {k})")
+					}
+				}
+				9 => {
+					self.note("foldr");
+					let a = self.expr(Ty::Arr, d);
+					format!("std.foldr(function(x, acc) acc * 2 + x, {a}, 0)")
+				}
 				0 | 1 => {
 					self.note("arith");
 					let op = *self.rng.pick(&["+", "-", "*", "+", "%"]);
@@ -301,7 +326,26 @@ impl Gen<'_> {
 				}
 				_ => self.leaf(ty),
 			},
-			Ty::Str => match self.rng.below(6) {
+			Ty::Str => match self.rng.below(8) {
+				4 => {
+					self.note("strrep");
+					let a = self.expr(Ty::Str, d);
+					let k = if self.rng.chance(4, 5) { self.rng.range(-1, 4).to_string() } else { self.expr(Ty::Num, 0) };
+					// the count is parenthesised: `-1 * "ab"` parses as `-(1 * "ab")` with the default parser and as
+					// `(-1) * "ab"` with the legacy one (known finding c06_unary_looser_than_mul, C06)
+					if self.rng.chance(1, 2) { format!("({a} * ({k}))") } else { format!("(({k}) * {a})") }
+				}
+				5 => {
+					self.note("join");
+					let sep = self.expr(Ty::Str, 0);
+					let n = self.rng.below(4);
+					let es: Vec<String> = (0..n).map(|_| {
+						if self.rng.chance(1, 6) { "null".to_string() }
+						else if self.rng.chance(1, 12) { self.expr(Ty::Num, 0) }
+						else { let e = self.expr(Ty::Str, d); self.traced(e) }
+					}).collect();
+					format!("std.join({sep}, [{}])", es.join(", "))
+				}
 				0 => {
 					self.note("concat");
 					let a = self.expr(Ty::Str, d);
@@ -324,7 +368,24 @@ impl Gen<'_> {
 				}
 				_ => self.leaf(ty),
 			},
-			Ty::Arr => match self.rng.below(9) {
+			Ty::Arr => match self.rng.below(12) {
+				8 => {
+					self.note("reverse");
+					format!("std.reverse({})", self.expr(Ty::Arr, d))
+				}
+				9 => {
+					self.note("flattenArrays");
+					let n = self.rng.below(3);
+					let es: Vec<String> = (0..n).map(|_| {
+						if self.rng.chance(1, 10) { self.expr(Ty::Num, 0) } else { let e = self.expr(Ty::Arr, d); self.traced(e) }
+					}).collect();
+					format!("std.flattenArrays([{}])", es.join(", "))
+				}
+				10 => {
+					self.note("objectValues");
+					let fun = *self.rng.pick(&["objectValues", "objectValues", "objectValuesAll"]);
+					format!("std.{fun}({})", self.expr(Ty::Obj, d))
+				}
 				0 => {
 					self.note("arrlit");
 					let n = self.rng.below(4);
@@ -534,7 +595,10 @@ impl Gen<'_> {
 		}
 		self.note("lit");
 		match ty {
-			Ty::Num => self.rng.range(-3, 9).to_string(),
+			// negative literals are parenthesised: `-3 * "ab"` is `-(3 * "ab")` for the default parser and
+			// `(-3) * "ab"` for the legacy one (known finding c06_unary_looser_than_mul, C06) — visible
+			// since string repetition is modelled
+			Ty::Num => { let v = self.rng.range(-3, 9); if v < 0 { format!("({v})") } else { v.to_string() } }
 			Ty::Bool => (*self.rng.pick(&["true", "false"])).to_string(),
 			Ty::Str => (*self.rng.pick(&["\"\"", "\"a\"", "\"ab\"", "\"b\"", "\"x y\"", "'q\"'"])).to_string(),
 			Ty::Arr => (*self.rng.pick(&["[]", "[1]", "[1, 2]", "[3, 1, 2]"])).to_string(),
@@ -651,7 +715,7 @@ pub fn run_engine(opts: &Opts, traces: bool) {
 	let meta = json!({
 		"engine": opts.engine.clone(), "cases": w.n, "construct_hist": hist, "outcome_hist": outcomes,
 		"evaluated_with_legacy_parser": legacy, "embedding_differs": embed_diff,
-		"rule":"type-directed random programs (depth<=4 quick / 5 thorough) over locals, closures, functions with positional/named/default parameters in random call styles, conditionals, arithmetic/comparison/logic operators, strings, arrays and comprehensions, indexing and slicing, objects with inheritance/visibility/self/super/$/locals/asserts/methods/computed names, error and assert; ~5% ill-typed or failing sub-terms; outcome = manifested JSON (numbers as IEEE bit patterns) or error class, plus the sorted multiset of std.trace labels"
+		"rule":"type-directed random programs (depth<=4 quick / 5 thorough) over locals, closures, functions with positional/named/default parameters in random call styles, conditionals, arithmetic/comparison/logic/bitwise operators, string repetition, std.join/reverse/foldr/flattenArrays/objectValues, strings, arrays and comprehensions, indexing and slicing, objects with inheritance/visibility/self/super/$/locals/asserts/methods/computed names, error and assert; ~5% ill-typed or failing sub-terms; outcome = manifested JSON (numbers as IEEE bit patterns) or error class, plus the sorted multiset of std.trace labels"
 	});
 	drop(guard);
 	w.finish(meta, &opts.out);
